@@ -10,10 +10,11 @@ theorem Inv.statusQuiet {P : Program} {s s' : St} {k : Key} {st : Status}
     (h1 : s'.env = s.env) (h2 : s'.epoch = s.epoch) (h3 : s'.mem = s.mem)
     (h4 : s'.db = s.db) (h5 : s'.dbIter = s.dbIter) (h6 : s'.status = upd s.status k st) (h7 : s'.task = s.task)
     (h8 : s'.pending = s.pending) (h9 : s'.target = s.target) (h10 : s'.started = s.started)
-    (h11 : s'.validSeen = s.validSeen)
+    (h11 : s'.validSeen = s.validSeen) (h12 : s'.registered = s.registered) (h13 : s'.sigAt = s.sigAt)
     (hold : s.status k = .scanning ∨ s.status k = .idle ∨ s.status k = .needsRun)
     (hnew : st = .scanning ∨ st = .needsRun) (hst : s.started = true)
     (hscan : st = .scanning → s.status k = .idle)
+    (hreg : st = .scanning → s.registered k = true)
     (hi : Inv P s) : Inv P s' := by
   have ha : active s' ↔ active s := active_congr h10
   have hnd : st ≠ .done := by rcases hnew with h | h <;> simp [h]
@@ -71,7 +72,7 @@ theorem Inv.statusQuiet {P : Program} {s s' : St} {k : Key} {st : Status}
       rw [h7, h3, h1]; exact t.computing this
   · intro x hfl; rw [hf] at hfl; exact ha.2 (hi.inflightActive x hfl)
   · intro x hx hv
-    rw [h11] at hv; rw [h1, h3]
+    rw [h11] at hv; rw [h1, h3, h13]
     rw [h6, status_upd] at hx
     by_cases e : x = k
     · subst e
@@ -87,19 +88,26 @@ theorem Inv.statusQuiet {P : Program} {s s' : St} {k : Key} {st : Status}
       simp at hx
       rcases hnew with h | h <;> simp [h] at hx
     · simp [e] at hx; exact hi.validIdle ht x hx
+  · rw [h12, h13]; exact hi.sigAtOk
+  · intro x hx
+    rw [h12]; rw [h6, status_upd] at hx
+    by_cases e : x = k
+    · subst e; simp at hx; exact hreg hx
+    · simp [e] at hx; exact hi.scanReg x hx
 
 end LLBuild.Engine
 
 namespace LLBuild.Engine
 
-/-- Replacing the dependency list (and signature) of `k`'s in-memory result: harmless when `k` is in
-flight, or when every recorded plain dependency stays recorded. -/
+/-- Replacing the dependency list of `k`'s in-memory result (the signature stays): harmless when `k`
+is in flight, or when every recorded plain dependency stays recorded. -/
 theorem Inv.memDeps {P : Program} {s s' : St} {k : Key} {d' : List Dep} {sg' : Nat}
     (h1 : s'.env = s.env) (h2 : s'.epoch = s.epoch)
     (h3 : s'.mem = s.mem.setRes k { s.mem.res k with deps := d', sig := sg' })
     (h4 : s'.db = s.db) (h5 : s'.dbIter = s.dbIter) (h6 : s'.status = s.status) (h7 : s'.task = s.task)
     (h8 : s'.pending = s.pending) (h9 : s'.target = s.target) (h10 : s'.started = s.started)
-    (h11 : s'.validSeen = s.validSeen)
+    (h11 : s'.validSeen = s.validSeen) (h12 : s'.registered = s.registered) (h13 : s'.sigAt = s.sigAt)
+    (hsg : sg' = (s.mem.res k).sig)
     (hdeps : inflight s k = true ∨
       ∀ x, (⟨x, false, false⟩ : Dep) ∈ (s.mem.res k).deps → (⟨x, false, false⟩ : Dep) ∈ d')
     (hi : Inv P s) : Inv P s' := by
@@ -117,6 +125,10 @@ theorem Inv.memDeps {P : Program} {s s' : St} {k : Key} {d' : List Dep} {sg' : N
   have hb : ∀ x, (s'.mem.res x).builtAt = (s.mem.res x).builtAt := by
     intro x; rw [h3]; by_cases e : x = k
     · subst e; simp
+    · rw [setRes_res_other _ _ _ _ e]
+  have hsig : ∀ x, (s'.mem.res x).sig = (s.mem.res x).sig := by
+    intro x; rw [h3]; by_cases e : x = k
+    · subst e; simp [hsg]
     · rw [setRes_res_other _ _ _ _ e]
   have hseq : s'.mem.seq = s.mem.seq := by rw [h3]; rfl
   have hdisc : s'.mem.disc = s.mem.disc := by rw [h3]; rfl
@@ -138,7 +150,8 @@ theorem Inv.memDeps {P : Program} {s s' : St} {k : Key} {d' : List Dep} {sg' : N
   · intro x hbx hfl; rw [hb] at hbx; rw [hf] at hfl
     obtain ⟨g, f⟩ := hi.good x hbx hfl
     constructor
-    · apply GoodRec.frame (σ := s.mem) (by rw [hseq]) (by rw [hdisc]) (by rw [henv]) (hv x) _ g
+    · intro hso; rw [hsig] at hso
+      apply GoodRec.frame (σ := s.mem) (by rw [hseq]) (by rw [hdisc]) (by rw [henv]) (hv x) _ (g hso)
       intro y hy
       by_cases e : x = k
       · subst e
@@ -166,7 +179,9 @@ theorem Inv.memDeps {P : Program} {s s' : St} {k : Key} {d' : List Dep} {sg' : N
     · intro hr; rw [h6] at hr; rw [h7]; exact t.running hr
     · intro hcmp; rw [h6] at hcmp; rw [h7, hv, h1]; exact t.computing hcmp
   · intro x hfl; rw [hf] at hfl; exact ha.2 (hi.inflightActive x hfl)
-  · intro x hx hvs; rw [h6] at hx; rw [h11] at hvs; rw [h1, hv, hb]; exact hi.validOk x hx hvs
+  · intro x hx hvs; rw [h6] at hx; rw [h11] at hvs; rw [h1, hv, hb, hsig, h13]; exact hi.validOk x hx hvs
   · rw [h9, h6, h11]; exact hi.validIdle
+  · rw [h12, h13]; exact hi.sigAtOk
+  · rw [h6, h12]; exact hi.scanReg
 
 end LLBuild.Engine
